@@ -11,11 +11,11 @@ package goverter
 // ---- C17: generate everything in memory, write only after every converter succeeded ----
 //@ func GenerateConverters
 //@   props C17 C15
-//@   requires c != nil
+//@   requires@C13 c != nil
 //@   ensures true
 //@   at call writeFiles#1 assert err == nil
 
 //@ func generateConvertersRaw
 //@   props C17 C16
-//@   requires c != nil
+//@   requires@C13 c != nil
 //@   ensures true
